@@ -68,7 +68,7 @@ def main():
         def run_demo():
             os.makedirs(os.path.dirname(demo_dest), exist_ok=True)
             shutil.copy(demo_src, demo_dest)
-            cmd = demo_cmd.replace("/tmp/seed2-" + pid, wt).replace("/tmp/seed-" + pid, wt)
+            cmd = re.sub(r"/tmp/seed\d*-%s\b" % pid, wt, demo_cmd)
             # commands are written relative to the repository root ("cd kernel && go test ...") or with absolute paths
             cwd = wt if re.search(r"(^|[;&] *)cd (kernel|kbuild)\b", cmd) or wt in cmd else demo_cwd
             rc, o = sh("export GOFLAGS=-mod=mod GOPROXY=off GOSUMDB=off GOTOOLCHAIN=local; " + cmd, cwd=cwd, timeout=900)
